@@ -4,7 +4,7 @@
    evaluated on the float instance of the model by vm_compute and replayed on the implementation by the check
    (known findings K3-K6 in /verif/known_findings.json). *)
 From Coq Require Import Reals Lra Floats.
-From TA Require Import Base Model Generic FloatInst Run XR Proofs.Ring Proofs.XBase Proofs.XSd Proofs.XMad Proofs.Wiring Proofs.Osc Proofs.XFast Proofs.XCor Proofs.XRoc Proofs.XEr.
+From TA Require Import Base Model Generic FloatInst Run XR Proofs.Ring Proofs.XBase Proofs.XSd Proofs.XMad Proofs.Wiring Proofs.Osc Proofs.XFast Proofs.XCor Proofs.XRoc Proofs.XEr Proofs.XMfi.
 
 (* exact arithmetic: on a flat window (any length >= 1, at any point of any history, since outputs depend on the window only)
    MAD = 0, SD = 0, the mean is the level and the Bollinger bands collapse onto it, for every multiplier *)
@@ -51,6 +51,11 @@ Proof. vm_compute. reflexivity. Qed.
 Theorem C08_K5_mfi_zero_flow_nan :
   map PrimFloat.is_nan (last_out [oN 0 KMfi (Pm 2 0 0 0); oB 0 7 7 7 7 5; oB 0 7 7 7 7 5]) = [true].
 Proof. vm_compute. reflexivity. Qed.
+
+(* ... and in exact arithmetic, for every period and history: with no money flow in the window the index is 0/0 *)
+Theorem C08_K5_mfi_zero_flow_exact : forall p b0 bs, let w := lastn p (flows (tpr b0) bs) in
+  (possum w + negsum w = 0)%R -> mfi_spec p b0 bs = XNaN.
+Proof. exact mfi_zero_flow_nan. Qed.
 
 (* K6: CCI on a flat window after activity: cancellation residue in the running sums defeats the `mad == 0` guard *)
 Theorem C08_K6_cci_residue :
